@@ -268,6 +268,11 @@ class GrandCanonicalCriteria(BaseCriteria):
         mass = context.exchange_atoms.get_masses().sum()
         particle_delta = context.particle_delta
 
+        if not mass > 0:
+            # no exchange species configured (the default of `GrandCanonical`): a massless
+            # "particle" has no thermal wavelength, so there is no ratio to accept with
+            return _metropolis(context.rng, -math.inf)
+
         # the prefactor V**delta * N!/(N+delta)! * wavelength**(-3*delta) is accumulated as
         # its logarithm: V**delta and wavelength**(-3*delta) leave the range of a float
         # (`**` raises OverflowError, or the product underflows to 0) long before the
